@@ -135,9 +135,9 @@ def gen_market(rnd, ndays=22, warm=3, n_stocks=None, with_future=None, opts=None
     if wf:
         nf = opts.get("n_futures") or (1 if rnd.random() < 0.7 else 2)
         for k in range(nf):
-            oid = ["RB2010", "IF2012"][k]
-            under = ["RB", "IF"][k]
-            mult = [10.0, 300.0][k]
+            oid = ["RB2010", "IF2012", "RB2101"][k]
+            under = ["RB", "IF", "RB"][k]
+            mult = [10.0, 300.0, 10.0][k]
             p = float(rnd.randrange(2000, 5000))
             bars = {}
             exp_i = None if (rnd.random() >= opts.get("p_expire", 0.4) or len(cal) - 1 <= warm + 6) else rnd.randrange(warm + 6, len(cal) - 1)
@@ -153,9 +153,9 @@ def gen_market(rnd, ndays=22, warm=3, n_stocks=None, with_future=None, opts=None
                 prev = c
             S["futures"].append({"id": oid, "under": under, "mult": mult, "bars": bars, "expire": None if exp_i is None else cal[exp_i],
                                  "info": {"underlying_symbol": under,
-                                          "close_commission_ratio": [0.0001, 2.0][k], "close_commission_today_ratio": [0.0003, 6.0][k],
-                                          "commission_type": ["by_money", "by_volume"][k], "open_commission_ratio": [0.0001, 2.0][k],
-                                          "margin_rate": [0.1, 0.12][k], "tick_size": [1.0, 0.2][k]}})
+                                          "close_commission_ratio": [0.0001, 2.0, 0.0001][k], "close_commission_today_ratio": [0.0003, 6.0, 0.0003][k],
+                                          "commission_type": ["by_money", "by_volume", "by_money"][k], "open_commission_ratio": [0.0001, 2.0, 0.0001][k],
+                                          "margin_rate": [0.1, 0.12, 0.1][k], "tick_size": [1.0, 0.2, 1.0][k]}})
     S["start"] = cal[warm]
     S["end"] = cal[-1]
     return S
@@ -196,7 +196,7 @@ def write_bundle(S, path):
                         "contract_multiplier": f["mult"], "underlying_symbol": f["under"], "listed_date": "2000-01-01",
                         "de_listed_date": dl, "maturity_date": dl, "exchange": "SHFE",
                         "trading_hours": "09:01-10:15,10:31-11:30,13:31-15:00"})
-    infos = [f["info"] for f in S["futures"]] or [{"underlying_symbol": "RB", "close_commission_ratio": 0.0001,
+    infos = list({f["info"]["underlying_symbol"]: f["info"] for f in S["futures"]}.values()) or [{"underlying_symbol": "RB", "close_commission_ratio": 0.0001,
                                                    "close_commission_today_ratio": 0.0003, "commission_type": "by_money",
                                                    "open_commission_ratio": 0.0001, "margin_rate": 0.1, "tick_size": 1.0}]
     json.dump(infos, open(os.path.join(path, "future_info.json"), "w"))
